@@ -39,6 +39,13 @@ func (c *fctx) lvalue(e ast.Expr) lval {
 					return fmt.Sprintf("Go.heapModify %s (fun __c => { __c with %s := %s }) %s", ptr, f, nv, site)
 				}}
 			}
+			if inner, ok := t.X.(*ast.SelectorExpr); ok { // x.f.g = v
+				if isel, ok := c.info.Selections[inner]; ok && isel.Kind() == types.FieldVal && c.x.kindOf(c.typeOf(inner)) == kStruct {
+					base := c.lvalue(inner)
+					f := leanIdent(t.Sel.Name)
+					return lval{base.get + "." + f, func(nv string) string { return base.set("{ " + base.get + " with " + f + " := " + nv + " }") }}
+				}
+			}
 			if id, ok := t.X.(*ast.Ident); ok {
 				base := c.lvalue(id)
 				f := leanIdent(t.Sel.Name)
@@ -110,7 +117,7 @@ func (x *X) translate(fi *FuncInfo) {
 			panic(r)
 		}
 	}()
-	c := &fctx{x: x, fi: fi, info: fi.pkg.TypesInfo, names: map[*types.Var]string{}, used: map[string]int{}}
+	c := &fctx{x: x, fi: fi, info: fi.pkg.TypesInfo, names: map[*types.Var]string{}, used: map[string]int{}, optVars: map[*types.Var]bool{}}
 	if fi.err != "" {
 		return
 	}
@@ -151,6 +158,8 @@ func (x *X) translate(fi *FuncInfo) {
 		if n := len(fi.body); n == 0 || !isReturn(fi.body[n-1]) {
 			if fi.results.Len() == 0 {
 				o.emit(1, "return %s", c.retTuple(nil))
+			} else if fs, ok := fi.body[n-1].(*ast.ForStmt); ok && fs.Cond == nil {
+				o.emit(1, "throw (Err.panic \"unreachable:%s\")", fi.lean) // Go: a `for {}` without break is a terminating statement
 			}
 		}
 	}
@@ -279,6 +288,9 @@ func (c *fctx) writtenRoots(n ast.Node) []*types.Var {
 		if id, ok := n.Fun.(*ast.Ident); ok && (id.Name == "copy" || id.Name == "delete") && len(n.Args) == 2 {
 			root(n.Args[0])
 		}
+		if se, ok := n.Fun.(*ast.SelectorExpr); ok && se.Sel.Name == "Read" && len(n.Args) == 1 && c.x.kindOf(c.typeOf(se.X)) == kSock {
+			root(n.Args[0]) // s.Read(buf) fills buf
+		}
 		if isPkgCall(c.info, n, "encoding/binary") && len(n.Args) == 2 {
 			root(n.Args[0])
 		}
@@ -328,10 +340,27 @@ func (c *fctx) stmt(o *out, ind int, s ast.Stmt) {
 		c.block(o, ind, t.List)
 	case *ast.EmptyStmt:
 	case *ast.DeferStmt:
+		if id, ok := t.Call.Fun.(*ast.Ident); ok { // defer cancel()
+			if v, ok := c.info.Uses[id].(*types.Var); ok && dropped(v.Type()) {
+				return
+			}
+		}
 		if !isIgnorable(calleeFunc(c.info, t.Call)) {
 			bad("defer at %s", c.site(s.Pos()))
 		}
+	case *ast.GoStmt:
+		c.goStmt(o, ind, t)
 	case *ast.ExprStmt:
+		if u, ok := t.X.(*ast.UnaryExpr); ok && u.Op == token.ARROW { // <-ctx.Done(): wait until that context ends
+			if dc, ok := u.X.(*ast.CallExpr); ok {
+				if f := calleeFunc(c.info, dc); f != nil && f.FullName() == "(context.Context).Done" {
+					name := c.x.envUse(c.envName(), "AwaitDone", nil, "Unit")
+					c.fi.effectful = true
+					o.emit(ind, "%s", name)
+					return
+				}
+			}
+		}
 		call, ok := t.X.(*ast.CallExpr)
 		if !ok {
 			bad("expression statement at %s", c.site(s.Pos()))
@@ -476,6 +505,9 @@ func (c *fctx) assign(o *out, ind int, t *ast.AssignStmt) {
 	if call, ok := rhs.(*ast.CallExpr); ok && isIgnorable(calleeFunc(c.info, call)) {
 		return // logging handle: never used by translated code
 	}
+	if dropped(c.typeOf(lhs)) { // dx.ctx = ctx: contexts carry nothing the translation computes with
+		return
+	}
 	switch t.Tok {
 	case token.DEFINE, token.ASSIGN:
 		c.define(o, ind, lhs, c.expr(rhs), t.Tok == token.DEFINE)
@@ -496,7 +528,10 @@ func (c *fctx) define(o *out, ind int, lhs ast.Expr, val string, isDefine bool) 
 			return
 		}
 		if v, ok := c.info.Defs[id].(*types.Var); ok && isDefine {
-			o.emit(ind, "let mut %s : %s := %s", c.varName(v), c.x.leanType(v.Type(), false), val)
+			if dropped(v.Type()) {
+				return
+			}
+			o.emit(ind, "let mut %s : %s := %s", c.varName(v), c.x.leanType(v.Type(), c.optVars[v]), val)
 			return
 		}
 	}
@@ -510,7 +545,7 @@ func (c *fctx) ret(o *out, ind int, t *ast.ReturnStmt) {
 		for i := 0; i < res.Len(); i++ {
 			vals = append(vals, c.varName(res.At(i)))
 		}
-	} else if call, ok := t.Results[0].(*ast.CallExpr); ok && len(t.Results) == 1 && c.mutCall(call) {
+	} else if call, ok := t.Results[0].(*ast.CallExpr); ok && len(t.Results) == 1 && (c.mutCall(call) || c.multiCall(call)) {
 		c.lastCallRes = nil
 		c.callStmt(o, ind, call, nil, false)
 		vals = c.lastCallRes
@@ -556,6 +591,19 @@ func (c *fctx) mutCall(call *ast.CallExpr) bool {
 	}
 	ci := c.x.funcs[f]
 	return ci != nil && len(ci.mutParams) > 0
+}
+
+// multiCall: a call of a translated function with several results (`return f(x)` forwarding them).
+func (c *fctx) multiCall(call *ast.CallExpr) bool {
+	f := calleeFunc(c.info, call)
+	if f == nil {
+		return false
+	}
+	if _, ok := effectOf(f); ok {
+		return false
+	}
+	ci := c.x.funcs[f]
+	return ci != nil && ci.results.Len() > 1
 }
 
 func (c *fctx) switchStmt(o *out, ind int, t *ast.SwitchStmt) {
@@ -613,4 +661,55 @@ func (c *fctx) switchStmt(o *out, ind int, t *ast.SwitchStmt) {
 			c.branch(o, ind+1, def.Body)
 		}
 	}
+}
+
+// goStmt: `go f(args)` hands the call to the environment (the goroutine's own behaviour is another theorem's
+// subject); a closer goroutine `go func() { <-ctx.Done(); sock.Close() }()` is resource discipline only (C19,
+// pinned by the regenerated facts) and is dropped.
+func (c *fctx) goStmt(o *out, ind int, t *ast.GoStmt) {
+	if fl, ok := t.Call.Fun.(*ast.FuncLit); ok {
+		for _, st := range fl.Body.List {
+			es, ok := st.(*ast.ExprStmt)
+			if !ok {
+				bad("goroutine body at %s", c.site(t.Pos()))
+			}
+			switch x := es.X.(type) {
+			case *ast.UnaryExpr:
+				if x.Op != token.ARROW {
+					bad("goroutine body at %s", c.site(t.Pos()))
+				}
+			case *ast.CallExpr:
+				se, ok := x.Fun.(*ast.SelectorExpr)
+				if !ok || se.Sel.Name != "Close" || c.x.kindOf(c.typeOf(se.X)) != kSock {
+					bad("goroutine body at %s", c.site(t.Pos()))
+				}
+			default:
+				bad("goroutine body at %s", c.site(t.Pos()))
+			}
+		}
+		return
+	}
+	f := calleeFunc(c.info, t.Call)
+	if f == nil || f.Pkg() == nil || !strings.HasPrefix(f.Pkg().Path()+"/", modPath) {
+		bad("go statement at %s", c.site(t.Pos()))
+	}
+	var args, atys []string
+	if se, ok := t.Call.Fun.(*ast.SelectorExpr); ok {
+		if _, isMethod := c.info.Selections[se]; isMethod {
+			if k := c.x.kindOf(c.typeOf(se.X)); k == kPtrStruct || k == kStruct {
+				args = append(args, c.expr(se.X))
+				atys = append(atys, c.x.leanType(c.typeOf(se.X), false))
+			}
+		}
+	}
+	for _, a := range t.Call.Args {
+		if isContext(c.typeOf(a)) {
+			continue
+		}
+		args = append(args, c.expr(a))
+		atys = append(atys, c.x.leanType(c.typeOf(a), false))
+	}
+	name := c.x.envUse(c.envName(), "Go_"+f.Name(), atys, "Unit")
+	c.fi.effectful = true
+	o.emit(ind, "%s", strings.TrimSpace(name+" "+strings.Join(args, " ")))
 }
